@@ -1,17 +1,16 @@
 (* C02Frag.v — the decidable fragment on which C02 is proved, and the entry points used by the
    correspondence check.  Definitions only. *)
-From PV Require Import Base Crit gen.TermsTable Terms TermsCorr Parse C02Model C02Expected.
+From PV Require Import Base Crit gen.TermsTable Terms TermsCorr Parse C02Model.
 Local Open Scope list_scope.
 
-(* A term is in the fragment when (1) the faithful token renderer and the policy printer emit the same tokens,
-   (2) every (position, child head) pair of the normalised tree is an expected (dominated) pair,
-   (3) no two adjacent tokens form a comment introducer. *)
+(* The scope of the C02 theorem, a purely syntactic condition on the context and the term:
+   (1) the context's subcriterion flag is off (no position of a statement sets it) and no NOT hands the flag through a
+       CASE or a value list to an AND/OR term (which would bracket it although no operator asked for it);
+   (2) the tree is clean: NOT is never an operand of an operator or predicate (pinned by pypika's own suite);
+   (3) the leaves are lexically well-formed (raw SQL leaves do not end in '-' or '/' ...). *)
 Definition frag02 (c : ctx) (t : term) : bool :=
   match rtoks c t, to_expr c t with
-  | Some ts, Some e =>
-      list_eqb tok_eqb ts (pr impl_pol e)
-      && forallb (fun ph => ph_mem ph expected_pairs) (pairs_of (norm e))
-      && adjacency_ok ts
+  | Some _, Some e => negb (subc c) && nl false t && clean e && lex_ok e
   | _, _ => false
   end.
 
